@@ -26,6 +26,7 @@ structure World (N V T : Type) where
   priv  : N → Bool
   lower : N → N
   noneV : V
+  isInst : V → Bool                -- `isinstance(first, from_class)` / `issubclass(first, from_class)` for a classmethod
 
 /-- one positional-or-keyword / positional-only / keyword-only parameter of the declaration -/
 structure Param (N V T : Type) where
@@ -463,13 +464,16 @@ def firstReserve (c : Ctx) (full : Sig N V T) : Bool :=
     | p :: _ => c.dotted && !p.pyDefault && p.ann.isNone         -- "guess instance method"
     | [] => false
 
-/-- a call of the decorated object.  `full` is the declared signature, first parameter included. -/
-def callDecl (W : World N V T) (c : Ctx) (full : Sig N V T) (o : Opts) (args : List V) (kw : List (N × V)) :
-    Outcome N V :=
+/-- `get_params` (func.py:684-719): the reserved first parameter is taken off, the rest goes through `parse_params`,
+then — for a method of a class decorated as a whole — the first argument must be an instance (a subclass, for a
+classmethod) of that class: otherwise InvalidInstance / InvalidSubclass, both ParseErrors, before the function is
+called.  `full` is the declared signature, first parameter included. -/
+def getParams (W : World N V T) (c : Ctx) (full : Sig N V T) (o : Opts) (args : List V) (kw : List (N × V)) :
+    Except Err (List V × List (N × V)) :=
   match firstReserve c full, full.pos with
   | true, r :: ps =>
     let s : Sig N V T := { full with pos := ps }
-    -- func.py:688-693: the first positional argument, else (fix C08-reserve-kw) the keyword of that name, else None
+    -- func.py:703-708: the first positional argument, else (fix C08-reserve-kw) the keyword of that name, else None
     let (first, args1, kw1) :=
       match args with
       | a :: as => (a, as, kw)
@@ -477,12 +481,24 @@ def callDecl (W : World N V T) (c : Ctx) (full : Sig N V T) (o : Opts) (args : L
         | some v => (v, [], kw.filter (fun e => e.1 != r.name))
         | none => (W.noneV, [], kw)
     match parseParams W s o args1 kw1 with
-    | .error _ => .perr
+    | .error e => .error e
     | .ok (args', kw') =>
-      match pyBindCore full (first :: args') kw' with
-      | none => .tyerr
-      | some b => .body b
-  | _, _ => call W full o args kw
+      if c.fromClass && !W.isInst first then .error .perr
+      else .ok (first :: args', kw')
+  | _, _ => parseParams W full o args kw
+
+/-- `func(*args, **kwargs)` (func.py:978) -/
+def rawCall (full : Sig N V T) (ak : List V × List (N × V)) : Outcome N V :=
+  match pyBindCore full ak.1 ak.2 with
+  | none => .tyerr
+  | some b => .body b
+
+/-- a call of the decorated object up to the entry of the body -/
+def callDecl (W : World N V T) (c : Ctx) (full : Sig N V T) (o : Opts) (args : List V) (kw : List (N × V)) :
+    Outcome N V :=
+  match getParams W c full o args kw with
+  | .error _ => .perr
+  | .ok ak => rawCall full ak
 
 /-! ### the result (func.py:703-712, 952-954) -/
 
@@ -495,6 +511,43 @@ def parseResult (W : World N V T) (ret : Option T) (r : V) : Result V :=
   match convBy W ret r with
   | .ok v => .ok v
   | .error _ => .perr
+
+/-- what the caller of a decorated function gets -/
+inductive Ret (N V : Type) where
+  | returned (b : Binding N V) (v : V)   -- the body ran with binding `b`; `v` is handed to the caller
+  | resultErr (b : Binding N V)          -- the body ran; its result does not convert: ParseError (func.py:727-737)
+  | perr                                 -- ParseError before the body
+  | tyerr                                -- Python's TypeError from the raw call
+  deriving Repr, DecidableEq
+
+/-- `sync_call` after the raw call (func.py:978-981): the body's result (a function of the binding it saw) goes
+through `parse_result` -/
+def finish (W : World N V T) (ret : Option T) (body : Binding N V → V) : Outcome N V → Ret N V
+  | .body b => match parseResult W ret (body b) with
+    | .ok v => .returned b v
+    | .perr => .resultErr b
+  | .perr => .perr
+  | .tyerr => .tyerr
+
+/-- a synchronous call of the decorated object, result included -/
+def callR (W : World N V T) (c : Ctx) (full : Sig N V T) (o : Opts) (ret : Option T) (body : Binding N V → V)
+    (args : List V) (kw : List (N × V)) : Ret N V :=
+  finish W ret body (callDecl W c full o args kw)
+
+/-- calling a decorated coroutine function: either an exception right at the call, or an awaitable with its outcome -/
+inductive CoroRet (N V : Type) where
+  | raisedAtCall
+  | awaited (r : Ret N V)
+  deriving Repr, DecidableEq
+
+/-- `get_async_call` / `get_async_result` (func.py:929-960, 983-990): `eager_call` runs `get_params` when called and
+hands the raw call + `parse_result` to a coroutine; the lazy wrapper awaits `eager_call` inside its own coroutine, so
+nothing happens before the await -/
+def coroCall (eager : Bool) (W : World N V T) (c : Ctx) (full : Sig N V T) (o : Opts) (ret : Option T)
+    (body : Binding N V → V) (args : List V) (kw : List (N × V)) : CoroRet N V :=
+  match getParams W c full o args kw with
+  | .error _ => if eager then .raisedAtCall else .awaited .perr
+  | .ok ak => .awaited (finish W ret body (rawCall full ak))
 
 /-! ### generators as Mealy machines (func.py:714-931) -/
 
